@@ -85,6 +85,9 @@ def run(tier, seed):
         for i in range(6 if tier == "quick" else 60):
             rc_cases.append({"name": "rc%d" % i, "proto": protos[i % 3], "n": rng.choice([4, 8]), "seed": rng.randint(1, 1 << 30),
                              "kill_after_ms": rng.choice([0, 0, 150, 400]) if i >= 3 else 0, "tls": rng.choice(["", "", "auto"])})
+        # the plugin dies between Start and the first Client(); then the goroutines use the client
+        for i, pr in enumerate(protos if tier == "quick" else protos * 4):
+            rc_cases.append({"name": "rcf%d" % i, "proto": pr, "n": 6, "seed": rng.randint(1, 1 << 30), "kill_after_ms": 0, "tls": "", "crash_first": True})
         obs_rc, crashes_rc = vlib.run_cases(b["drivers"], "TestRaceCases", rc_cases, "c20rc", env={"VERIF_VPLUGIN": b["vplugin"], "VERIF_CASE_TIMEOUT_S": "150"},
                                             shards=min(6, len(rc_cases)), serial=True, timeout=3000)
         # (4) shutdown while a broker message is inside the stream's send goroutine (held at a hook point)
